@@ -5,14 +5,30 @@ import "github.com/hashicorp/go-slug/sourceaddrs"
 // C13: the bundle is a function of its inputs, not of the order of the Add calls (nor of map
 // iteration order, which the executor makes symbolic for go-slug's own range statements).
 
-func c13Build(target string, adds []wFinderKey, order []int) *Bundle {
+// c13Add: one Add call - a remote source, or (regAdds) a registry source with a sub-path and an
+// allowed-version set.
+type c13Add struct {
+	key wFinderKey // the (final node, finder) the call stands for
+	reg bool
+	r   int
+	sub string
+	set int
+}
+
+func c13Build(target string, adds []c13Add, order []int) *Bundle {
 	wResetBuild(target)
 	b, err := NewBuilder(target, wFetcher{}, wRegistry{})
 	verif.Assume(err == nil)
 	ctx := wCtx{wTracer()}
 	for _, i := range order {
-		k := adds[i]
-		diags := b.AddRemoteSource(ctx, wSource(k.node), wFinder{k.node, k.kind})
+		a := adds[i]
+		var diags Diagnostics
+		if a.reg {
+			src, _ := sourceaddrs.ParseRegistrySource(wRegPkg(a.r).String() + wSubSuffix(a.sub))
+			diags = b.AddRegistrySource(ctx, src, wSets[a.set], wFinder{a.key.node, a.key.kind})
+		} else {
+			diags = b.AddRemoteSource(ctx, wSource(a.key.node), wFinder{a.key.node, a.key.kind})
+		}
 		verif.Assert("fault-free-build-reports-no-error", !diags.HasErrors())
 	}
 	bundle, err := b.Close()
@@ -45,11 +61,30 @@ func HarnessC13Order() {
 	wAllowRelative, wAllowRegistry = false, false
 	wNFinders = 1
 	wSymContent = verif.Param("symContent", 1) == 1
-	wSymMeta = false
+	wSymMeta = verif.Param("symMeta", 0) == 1
+	wLeafPkgs = verif.Param("leaf", 0) == 1
+	wKindMask = verif.Param("kinds", 0)
+	regAdds := verif.Param("regAdds", 0) == 1
+	if regAdds {
+		wNReg = 1
+		wTwoSets = true
+	}
 	envMkdir("/w/t2", 0755, 100)
-	var adds []wFinderKey
+	var adds []c13Add
+	var keys []wFinderKey
 	for i := 0; i < nAdds; i++ {
-		adds = append(adds, wFinderKey{wNode{verif.Choose("add.pkg", nPkg), verif.Choose("add.loc", 2)}, 0})
+		if regAdds {
+			// registry sources for one package: sub-path '' or 'm', allowed set All or exactly 1.0.0
+			a := c13Add{reg: true, r: 0, sub: wLocs[verif.Choose("add.sub", 2)], set: []int{0, 2}[verif.Choose("add.set", 2)]}
+			reg, _ := sourceaddrs.ParseRegistrySource(wRegPkg(0).String() + wSubSuffix(a.sub))
+			a.key = wFinderKey{wNodeOf(reg.FinalSourceAddr(wRegistryTarget(0, wRefSelect(a.set)))), 0}
+			adds = append(adds, a)
+			keys = append(keys, a.key)
+			continue
+		}
+		k := wFinderKey{wNode{verif.Choose("add.pkg", nPkg), verif.Choose("add.loc", 2)}, 0}
+		adds = append(adds, c13Add{key: k})
+		keys = append(keys, k)
 	}
 	ident := []int{0, 1, 2}[:nAdds]
 	var perm []int
@@ -68,7 +103,7 @@ func HarnessC13Order() {
 	c2, _ := b2.ChecksumV1()
 	verif.Assert("C13-same-manifest-bytes-and-checksum", c1 == c2)
 	verif.Assert("C13-same-directory-names", c13TopNames(wTarget) == c13TopNames("/w/t2"))
-	seen, pkgs := wClosure(adds)
+	seen, pkgs := wClosure(keys)
 	for k := range seen {
 		p1, e1 := b1.LocalPathForSource(wSource(k.node))
 		p2, e2 := b2.LocalPathForSource(wSource(k.node))
@@ -82,6 +117,11 @@ func HarnessC13Order() {
 		if e3 == nil && e4 == nil {
 			verif.Assert("C13-same-reverse-lookup-answers", s1.String() == s2.String())
 		}
+	}
+	// metadata answers do not depend on which of two coinciding packages was fetched first
+	for i := range pkgs {
+		m1, m2 := b1.RemotePackageMeta(wPkgAddr(i)), b2.RemotePackageMeta(wPkgAddr(i))
+		verif.Assert("C13-same-metadata-answers", (m1 == nil) == (m2 == nil) && (m1 == nil || *m1 == *m2))
 	}
 	// same content <=> same directory
 	for i := range pkgs {
